@@ -57,7 +57,7 @@ def main(argv=None):
     if a.replay:
         with open(a.replay) as f:
             rp = json.load(f)
-        m = core.run_tasks(mod, [rp["task"]], procs=1)
+        m = core.run_history(mod, rp["history"], rp["task"]) if rp.get("history") else core.run_tasks(mod, [rp["task"]], procs=1)
         if m.harness_errors:
             print("HARNESS-ERROR:", m.harness_errors[0])
             return 2
@@ -98,19 +98,45 @@ def main(argv=None):
     by_key = {}
     for v in merged.violations:
         by_key.setdefault(v["key"], []).append(v)
-    new, known = [], []
+    new, known, flaky = [], [], []
     for key, vs in sorted(by_key.items()):
         v = vs[0]
         # determinism obligation: a violation must reproduce from a fresh object
         r = core.run_tasks(mod, [v["replay"]], procs=1)
         if r.harness_errors or key not in {x["key"] for x in r.violations}:
-            print(f"HARNESS-ERROR: violation {key} did not reproduce on re-execution: {r.harness_errors[:1]}")
-            return 2
+            # Context-dependent? The minimal replay is one point of the task that reported the violation. A library that keeps
+            # state across independent calls (module-level caches, identity-keyed memo tables) fails only after the calls that
+            # preceded the point. Widen the context step by step, each time twice in a freshly forked worker:
+            #   (1) the whole task that reported it; (2) the tasks that worker had executed before it, then the task.
+            hist, whole = v.get("_history"), v.get("_task")
+            used = None
+            if whole is not None and not r.harness_errors:
+                for ctx_hist, label in (([], "the whole task"), (hist or [], f"the {len(hist or [])} tasks the worker had run before + the task")):
+                    rr = [core.run_history(mod, ctx_hist, whole) for _ in range(2)]
+                    if all(not x.harness_errors and key in {y["key"] for y in x.violations} for x in rr):
+                        used = (ctx_hist, label)
+                        break
+                    if not hist:
+                        break
+            if used is None:
+                flaky.append((key, r.harness_errors[:1]))
+                continue
+            v["replay"] = whole
+            v["_history_used"] = used[0]
+            v["what"] += (f" [does not fail when this point is executed alone; reproduced twice in fresh processes with {used[1]}: "
+                          "the library keeps state across independent calls]")
         path = core.write_replay(prop, v, seed)
         if key in open_keys:
             known.append((key, open_keys[key], path))
         else:
             new.append((key, v, path))
+    if flaky and not new:
+        # nothing reproducible to show: the harness cannot tell a process-dependent defect from its own nondeterminism
+        print(f"HARNESS-ERROR: violation {flaky[0][0]} did not reproduce on re-execution: {flaky[0][1]}")
+        return 2
+    for key, err in flaky:
+        print(f"  note: {key} was observed in the run but did not reproduce on re-execution (alone, with its whole task, with the worker's history); "
+              "not reported as a violation of its own - the reproducible violation(s) below stand")
     for key, f, path in known:
         print(f"KNOWN-FINDING: property={prop} {f['what']} [key={key} replay={os.path.relpath(path, core.VERIF)}]")
     for key, v, path in new:
